@@ -59,6 +59,8 @@ var c12Generators = []string{
 	"phrase(gen, [X])", "between(1, inf, X)", "current_predicate(p/X)", "current_predicate(Q/1), atom_length(Q, X)", "current_char_conversion(_, _), X = 1", "(X = 1 ; X = 2 ; X = 3)",
 	"(member(X, [1, 2]) -> true ; X = 3)", "(fail -> true ; member(X, [1, 2, 3]))", "\\+ fail, member(X, [1, 2, 3])", "once(member(_, [a, b])), member(X, [1, 2, 3])",
 	"rec(X)", "member(X, [1, 2, 3]), (X == 3 -> throw(oops) ; true)", "atom_length(A, X)", "member(X, [1, 2|_])",
+	"member(X, [1, 2, 3]), !", "!, member(X, [1, 2, 3])", "member(X, [1, 2, 3]), X >= 2, !", "X = 1, !", "retract(p(X)), !",
+	"forall_absent(X)", "between(1, 3, X), \\+ X = 2", "select(X, [1, 2, 3], R), member(Y, R), Y > X",
 }
 
 var c12VarRe = regexp.MustCompile(`_[0-9]+`)
@@ -581,7 +583,7 @@ func c12Replay(b []byte) (string, string, bool) {
 func init() {
 	h.Register(&h.Check{
 		ID: "C12",
-		Rule: "(a) every call history over {Next, Scan, Err, Close} of length <= L on one Solutions, for 8 query kinds (0..3 answers, an error after 0, 1, 2 answers, an infinite generator; two of them write a character before each answer) - executed on the REAL interpreter.go/solutions.go whose channel operations and go statement are mechanically routed through a scheduler shim, under every interleaving of the consumer and the search goroutine with at most P preemptions; histories are walked breadth-first and keyed by (sequential model state, final scheduler-visible state of the goroutine over all interleavings, last call); (c) generator family: each of 37 nondeterministic control constructs, built-in and library predicates (between, member, nth0/nth1 in both modes, append, select, length, clause, retract, user clauses, current_op, sub_atom, atom_concat, current_prolog_flag, stream_property, call_nth, bagof, setof, catch, call/N, if-then-else, DCG phrase, left recursion, an error after two answers, a partial list, ...) followed by two goals with a visible side effect (a database update, which the engine performs at once, and output, which it defers; both orders), under 10 (thorough: 15) histories that close before the first, after the first, second, third and last answer or never, all interleavings; the answers are discovered by one sequential run to exhaustion, and exactly one side effect of each kind per answer handed out is required; (b) two Solutions of one interpreter: all pairs of histories of length <= L2 over {Next, Scan, Close}, all their merges, all interleavings of the three threads. Non-trivial/distinct = distinct state key / case.",
+		Rule: "(a) every call history over {Next, Scan, Err, Close} of length <= L on one Solutions, for 8 query kinds (0..3 answers, an error after 0, 1, 2 answers, an infinite generator; two of them write a character before each answer) - executed on the REAL interpreter.go/solutions.go whose channel operations and go statement are mechanically routed through a scheduler shim, under every interleaving of the consumer and the search goroutine with at most P preemptions; histories are walked breadth-first and keyed by (sequential model state, final scheduler-visible state of the goroutine over all interleavings, last call); (c) generator family: each of 45 nondeterministic control constructs, built-in and library predicates (between, member, nth0/nth1 in both modes, append, select, length, clause, retract, user clauses, current_op, sub_atom, atom_concat, current_prolog_flag, stream_property, call_nth, bagof, setof, catch, call/N, if-then-else, DCG phrase, left recursion, an error after two answers, a partial list, ...) followed by two goals with a visible side effect (a database update, which the engine performs at once, and output, which it defers; both orders), under 10 (thorough: 15) histories that close before the first, after the first, second, third and last answer or never, all interleavings; the answers are discovered by one sequential run to exhaustion, and exactly one side effect of each kind per answer handed out is required; (b) two Solutions of one interpreter: all pairs of histories of length <= L2 over {Next, Scan, Close}, all their merges, all interleavings of the three threads. Non-trivial/distinct = distinct state key / case.",
 		Explanation: "state = (iterator model state, scheduler-visible state of channels and goroutine); transition = one call on the real Solutions object executed under the controlled scheduler; 'the call blocks' is the crisp verdict 'no enabled thread while the consumer is inside a call'; a goroutine leak is 'a search goroutine still parked at the end of a history that closed or exhausted its iterator'; 'no goal runs after Close' is checked on the output written by the query",
 		Assumptions: []string{"the rewriter (cmd/vrewrite) is purely syntactic and fails loudly on constructs it does not know; the shim models Go channel semantics (buffered/unbuffered, close) as in DESIGN.md Appendix B", "Scan before the first Next, after a false Next and after Close is unspecified: only termination is checked", "unsynchronised accesses are not visible to a cooperative scheduler: a separate free-running -race pass runs the same histories (C12 race pass)"},
 		Work:        c12Work,
